@@ -149,6 +149,13 @@ def mutate(s, mut):
         raise KeyError(op)
 
 
+import enum  # noqa: E402
+try:
+    import numpy as _np
+except Exception:  # noqa: BLE001 - numpy is optional
+    _np = None
+
+
 def build(src, paths):
     """-> (object, value bits).  For file-backed objects the value is what the object reports."""
     cls = CLASSES[src['cls']]
@@ -172,7 +179,13 @@ def build(src, paths):
             mutate(s, src['mut'])
         bits = B(s)
     if src.get('pos') is not None and src['cls'] in util.STREAMS:
-        s.pos = min(src['pos'], len(s))
+        p = min(src['pos'], len(s))
+        kind = src.get('poskind')
+        if kind == 'numpy' and _np is not None:
+            p = _np.int64(p)                    # a position is an integer whatever its class; repr must still evaluate
+        elif kind == 'enum':
+            p = enum.IntEnum('Field', {'HERE': p}).HERE
+        s.pos = p
     return s, bits
 
 
@@ -531,8 +544,10 @@ def gen_mut(rng):
 def gen_src(rng, L, allow_file=True, p_file=0.15, cls=None):
     cls = cls or rng.choice(util.CLASS_NAMES)
     pos = None
+    poskind = None
     if cls in util.STREAMS:
         pos = rng.choice([None, 0, 1, L, L // 2, max(L - 1, 0), rng.randint(0, L)])
+        poskind = rng.choice([None, None, None, 'numpy', 'enum'])
     if allow_file and rng.random() < p_file:
         nbytes = (L + 7) // 8 + rng.choice([0, 0, 1, 3])
         if L == 0:
@@ -555,7 +570,7 @@ def gen_src(rng, L, allow_file=True, p_file=0.15, cls=None):
         if cls in util.MUTABLE and rng.random() < 0.6:
             src['mut'] = gen_mut(rng)
         return src
-    return {'via': 'mem', 'cls': cls, 'bits': util.content(rng, L), 'pos': pos}
+    return {'via': 'mem', 'cls': cls, 'bits': util.content(rng, L), 'pos': pos, 'poskind': poskind}
 
 
 PP_LENGTHS = list(range(0, 49)) * 3 + [60, 63, 64, 65, 72, 96, 100, 120, 127, 128, 129, 144, 192, 200, 255, 256, 257, 300,
